@@ -492,7 +492,8 @@ def short_bodies(maxlen):
     return list(bodies_from((), (), maxlen))
 
 
-STATEMENTS = ("a;", "if (c) {b;}", "f(x, y);", "{d;}", ";", 'w("{%d");')
+# the quick tier uses the first four, the thorough tier the first five
+STATEMENTS = ("a;", "if (c) {b;}", 'w("{%d");', "{d;}", "f(x, y);", ";")
 
 
 def zone_sequences(k, maxn):
